@@ -162,7 +162,9 @@ class Spec:
         if not st.initiated:
             return ["initiate", "initiate-upgrade"]
         acts = ["ping", "settings:2", "settings:0", "settings:dflt", "incr:0", "close:0", "close:d", "rx:mfs:%d" % FRAME_LIMITS[1],
-                "rx:mfs:%d" % FRAME_LIMITS[3], "rx:ping", "rx:settings"]
+                "rx:mfs:%d" % FRAME_LIMITS[3], "rx:ping", "rx:settings",
+                # the same received frames while an earlier call's output has not been collected yet: replies are APPENDED
+                "pend+rx:ping", "pend+rx:settings"]
         if st.F != FRAME_LIMITS[0]:
             acts.append("rx:mfs:%d" % FRAME_LIMITS[0])      # the peer lowers its limit again
         if st.nopen < 2:
@@ -187,6 +189,9 @@ class Spec:
             s.update(sig)
             viols.append({"kind": kind, "sig": s, "msg": msg})
 
+        pend = lab.startswith("pend+")
+        if pend:
+            lab = lab[5:]
         parts = lab.split(":")
         out = parts[0]
         if parts[0] in ("initiate", "initiate-upgrade"):
@@ -228,6 +233,11 @@ class Spec:
             pre = wire.PREFACE
         if parts[0] == "rx":
             st.peer_pref = False
+            if pend:
+                try:
+                    c.ping(b"PENDING!")          # queued, not collected
+                except Exception:  # noqa: BLE001
+                    return Step("pend-not-possible", viols, prune=True)
             if parts[1] == "mfs":
                 v = int(parts[2])
                 o = H.recv(c, pre + wire.settings([(wire.S_MAX_FRAME_SIZE, v)]).serialize())
@@ -237,15 +247,20 @@ class Spec:
             elif parts[1] == "ping":
                 o = H.recv(c, pre + wire.ping(b"87654321").serialize())
                 exp_ack = False
-                if o.kind == "ok":
-                    expect_single(o, bad, lab, wire.PING, 0, ack=True, opaque=b"87654321")
             else:
                 o = H.recv(c, pre + wire.settings([(wire.S_INITIAL_WINDOW_SIZE, 100000)]).serialize())
                 exp_ack = True
             if o.kind != "ok":
                 st.dead = True
                 return Step("rx-rejected", viols, prune=True)
+            if pend:
+                if not (o.frames and o.frames[0].type == wire.PING and o.frames[0].f["opaque"] == b"PENDING!" and not o.frames[0].f["ack"]):
+                    bad("earlier-output-overtaken", "a PING was queued before %s was received, but the output is %s" % (lab, [f.brief() for f in o.frames]),
+                        reply=parts[1])
+                o.frames = [f for f in o.frames if not (f.type == wire.PING and f.f["opaque"] == b"PENDING!")]
             check_frames(o, st.F, bad, lab)
+            if parts[1] == "ping":
+                expect_single(o, bad, lab, wire.PING, 0, ack=True, opaque=b"87654321")
             if exp_ack:
                 expect_single(o, bad, lab, wire.SETTINGS, 0, ack=True, settings=[])
             return Step("rx-" + parts[1], viols)
